@@ -808,11 +808,11 @@ def main():
          "def ModuleId.str : ModuleId → String"]
     T += [f"  | .{m} => \"{m}\"" for m in mids]
     T += ["", "/-- key shape, number of scalar arguments, number of coordinate arguments -/",
-          "structure ModInfo where", "  shape : List String", "  nscalar : Nat", "  ncoord : Nat", "  deriving Repr", "",
+          "structure ModInfo where", "  shape : List KS", "  nscalar : Nat", "  ncoord : Nat", "  deriving Repr", "",
           "def ModuleId.info : ModuleId → ModInfo"]
     for m in mids:
         tb = tr.tables[m]
-        T.append(f"  | .{m} => ⟨[" + ", ".join(f'"{s}"' for s in tb["shape"]) + f"], {tb['nscalar']}, {tb['ncoord']}⟩")
+        T.append(f"  | .{m} => ⟨[" + ", ".join(f'.{s}' for s in tb["shape"]) + f"], {tb['nscalar']}, {tb['ncoord']}⟩")
     T += ["", "/-- every key present in the module's dispatch_map, with the declared result -/"]
     for m in mids:
         tb = tr.tables[m]
